@@ -20,13 +20,14 @@ class TopologicalSortPass(ir.passes.InPlacePass):
     """
 
     def call(self, model: ir.Model) -> ir.passes.PassResult:
-        original_nodes = list(model.graph)
+        # Graph.sort() also sorts the subgraphs, so compare the node order recursively
+        original_nodes = list(ir.traversal.RecursiveGraphIterator(model.graph))
         model.graph.sort()
-        sorted_nodes = list(model.graph)
+        sorted_nodes = list(ir.traversal.RecursiveGraphIterator(model.graph))
         for function in model.functions.values():
-            original_nodes.extend(function)
+            original_nodes.extend(ir.traversal.RecursiveGraphIterator(function))
             function.sort()
-            sorted_nodes.extend(function)
+            sorted_nodes.extend(ir.traversal.RecursiveGraphIterator(function))
 
         # Compare node orders to determine if any changes were made
         modified = False
